@@ -65,6 +65,10 @@ func main() {
 		os.Exit(cmdReplay(os.Args[2:]))
 	case "mutant":
 		os.Exit(cmdMutant(os.Args[2:]))
+	case "cfg":
+		os.Exit(cmdCFG(os.Args[2:]))
+	case "facts":
+		os.Exit(cmdFacts(os.Args[2:]))
 	default:
 		usage()
 	}
